@@ -76,10 +76,12 @@ def grid_spec(draw, dims=(1, 2, 3), kinds=None, max_n=4, max_n3=3, perturb=True,
     if kind == "tet":
         n = [min(k, 2) for k in n]
     s["n"] = n
-    if tri_user and kind == "tri" and draw(st.integers(0, 2)) == 0:
+    if tri_user and kind == "tri" and (tri_user == 2 or draw(st.integers(0, 2)) == 0):
         # the triangulation handed over as a user-supplied cell-node array, the node order of every cell permuted
         # (cyclic shifts and reversals): TriangleGrid repairs shared edges traversed in the same direction by both cells
         s["tri_order"] = draw(st.lists(st.integers(0, 5), min_size=2 * n[0] * n[1], max_size=2 * n[0] * n[1]))
+        # ... and the nodes renumbered cyclically, so that node 0 / face 0 need not lie on the boundary
+        s["tri_shift"] = draw(st.integers(0, (n[0] + 1) * (n[1] + 1) - 1))
     if kind == "tensor":
         coords = []
         for k in n:
@@ -270,7 +272,12 @@ def build_grid(spec, compute_geometry=True):
             tri = g.cell_nodes().tocsc().indices.reshape(-1, 3).T.copy()
             for c, k in enumerate(spec["tri_order"]):
                 tri[:, c] = tri[list(perms[k]), c]
-            g = pp.TriangleGrid(g.nodes.copy(), tri)
+            nn = g.num_nodes
+            k = int(spec.get("tri_shift", 0)) % nn
+            new_of_old = (np.arange(nn) + k) % nn
+            nodes = np.zeros_like(g.nodes)
+            nodes[:, new_of_old] = g.nodes
+            g = pp.TriangleGrid(nodes, new_of_old[tri])
     elif kind == "tet":
         g = pp.StructuredTetrahedralGrid(np.array(n), np.array(spec["phys"], dtype=float))
     elif kind in ("poly", "polyx"):
@@ -368,6 +375,8 @@ def grid_meta(spec):
             labels.append("poly-mixed")
     if spec.get("tri_order"):
         labels.append("tri-user-node-order")
+        if spec.get("tri_shift"):
+            labels.append("tri-user-nodes-renumbered")
     return {"measure": meas, "planar_faces": True, "labels": labels}
 
 
